@@ -401,6 +401,10 @@ func checkConv(p *Prog, r *Report, pkg, prop string) {
 	ruleCommandsOnlyGrow(p, r, pkg)
 	ruleStickyState(p, r, prop, map[string]bool{pkg: true}, map[string]int{"panos": 1, "nsx": 1, "linux": 2}[pkg])
 	ruleCutsetMisuse(p, r, map[string]bool{pkg: true})
+	ruleShortCircuitSkips(p, r, map[string]bool{pkg: true}, newSummarizer(p))
+	if pkg == "linux" {
+		ruleMapComparisonSymmetric(p, r, map[string]bool{pkg: true}, 3)
+	}
 	if pkg == "panos" || pkg == "nsx" {
 		ruleComparatorsComplete(p, r, map[string]bool{pkg: true}, map[string]int{"panos": 6, "nsx": 2}[pkg])
 	}
